@@ -140,14 +140,27 @@ class Pattern(Interp):
     def _zero_guard_skips_noops(n, ctx):
         """`if v == 0: return / continue` (or `if v != 0: BODY`) where everything that is skipped is `X += e` / `X -= e` with the tested name v a
         factor of the product e: the skipped updates add v * (...) = 0, so both ways through the branch compute the same values"""
-        if ctx.func is None or not isinstance(n, ast.Compare) or len(n.ops) != 1 or not isinstance(n.ops[0], (ast.Eq, ast.NotEq)):
+        if ctx.func is None:
             return False
-        a, b = n.left, n.comparators[0]
-        if isinstance(a, ast.Constant):
-            a, b = b, a
-        if not (isinstance(a, ast.Name) and isinstance(b, ast.Constant) and b.value == 0 and not isinstance(b.value, bool)):
+        v, when_zero = None, None
+        if isinstance(n, ast.Compare) and len(n.ops) == 1 and isinstance(n.ops[0], (ast.Eq, ast.NotEq)):
+            a, b = n.left, n.comparators[0]
+            if isinstance(a, ast.Constant):
+                a, b = b, a
+            if isinstance(a, ast.Name) and isinstance(b, ast.Constant) and b.value == 0 and not isinstance(b.value, bool):
+                v, when_zero = a.id, isinstance(n.ops[0], ast.Eq)
+        else:
+            # `not v.any()` / `not np.any(v)`: the array v is zero everywhere
+            neg, e = False, n
+            while isinstance(e, ast.UnaryOp) and isinstance(e.op, ast.Not):
+                neg, e = not neg, e.operand
+            if isinstance(e, ast.Call) and not e.keywords:
+                if isinstance(e.func, ast.Attribute) and e.func.attr == "any" and isinstance(e.func.value, ast.Name) and not e.args:
+                    v, when_zero = e.func.value.id, neg
+                elif (dotted_of(e.func) or "") in ("np.any", "numpy.any") and len(e.args) == 1 and isinstance(e.args[0], ast.Name):
+                    v, when_zero = e.args[0].id, neg
+        if v is None:
             return False
-        v = a.id
 
         def factor(e):
             if isinstance(e, ast.Name):
@@ -160,8 +173,15 @@ class Pattern(Interp):
                 return factor(e.args[0]) or factor(e.args[1])
             return False
 
+        def noop(st):
+            return isinstance(st, ast.AugAssign) and isinstance(st.op, (ast.Add, ast.Sub)) and factor(st.value)
+
+        def keeps_zero(st):
+            # v = v @ B / v = B * v: zero stays zero
+            return isinstance(st, ast.Assign) and len(st.targets) == 1 and isinstance(st.targets[0], ast.Name) and st.targets[0].id == v and factor(st.value)
+
         def noops(stmts):
-            return bool(stmts) and all(isinstance(st, ast.AugAssign) and isinstance(st.op, (ast.Add, ast.Sub)) and factor(st.value) for st in stmts)
+            return bool(stmts) and all(noop(st) for st in stmts)
         for blk_owner in ast.walk(ctx.func.node):
             for fld in ("body", "orelse"):
                 blk = getattr(blk_owner, fld, None)
@@ -169,13 +189,16 @@ class Pattern(Interp):
                     continue
                 for k_, st in enumerate(blk):
                     if isinstance(st, ast.If) and st.test is n and not st.orelse:
-                        if isinstance(n.ops[0], ast.NotEq):
+                        if not when_zero:
                             return noops(st.body)
-                        last = isinstance(blk_owner, (ast.FunctionDef, ast.For, ast.While))      # the rest of the function body / of the loop body is what is skipped
                         if len(st.body) == 1 and isinstance(st.body[0], ast.Return) and st.body[0].value is None and isinstance(blk_owner, ast.FunctionDef):
                             return noops(blk[k_ + 1:])
                         if len(st.body) == 1 and isinstance(st.body[0], ast.Continue) and isinstance(blk_owner, (ast.For, ast.While)) and fld == "body":
                             return noops(blk[k_ + 1:])
+                        if len(st.body) == 1 and isinstance(st.body[0], ast.Break) and isinstance(blk_owner, ast.For) and fld == "body" and not blk_owner.orelse:
+                            # leaving the loop: every later round would only add multiples of v (zero) and keep v zero - by induction nothing changes any more
+                            others = [x for x in blk if x is not st and not (isinstance(x, ast.Expr) and isinstance(x.value, ast.Constant))]
+                            return bool(others) and all(noop(x) or keeps_zero(x) for x in others)
                         return False
         return False
 
